@@ -28,6 +28,7 @@ Inductive vclass :=
 | VNoX509                      (* no x509.subject identity configured *)
 | VBadLeaf (e : dnerr)         (* subject of certs[0] does not parse *)
 | VNoMatch
+| VPluginFail                  (* the verification plugin reported the trusted-identity check as failed *)
 | VPanic.                      (* certs[0] on an empty chain (never produced by an envelope) *)
 
 (* the loop over trustedIdentities: first error wins, x509.subject identities
@@ -124,7 +125,15 @@ Inductive input :=
 | ISubset (a b : amap)                         (* pkix.IsSubsetDN a b *)
 | IRender (d : list (astyle * attr)) (s : string)
                                                (* ParseDistinguishedName of the rendering s of d *)
-| IVerify (late log : bool) (ids chain : list string).
+| IVerify (late log : bool) (ids chain : list string)
+| IPlugin (cap_ti cap_rev plugin_ok log : bool) (ids chain : list string).
+   (* IPlugin: the same Verify, but the signature names a verification plugin
+      (critical attribute io.cncf.notary.verificationPlugin) that is installed
+      and advertises the trusted-identity capability iff [cap_ti] and the
+      revocation capability iff [cap_rev] (revocation is skipped by the policy);
+      [plugin_ok]: the success flag of the plugin's trusted-identity result.
+      processSignature performs the native check iff the plugin does NOT
+      advertise the trusted-identity capability. *)
    (* verifier.Verify of an envelope whose chain has the subjects [chain] (leaf
       first) under a statement with trusted identities [ids]; [late]: the
       identities are put into the document after the verifier was constructed
@@ -155,6 +164,15 @@ Definition model (i : input) : obs :=
            | WOk => verify_obs log ids chain
            | w => OConstruct w
            end
+  | IPlugin ti _ pok log ids chain =>
+      match validate_ids ids with
+      | WOk =>
+          if ti then
+            let v := if pok then VPass else VPluginFail in
+            OVerify v (negb log && negb (is_pass v))
+          else verify_obs log ids chain
+      | w => OConstruct w
+      end
   end.
 
 (* ---------- boolean equalities ---------- *)
@@ -162,7 +180,7 @@ Definition model (i : input) : obs :=
 Definition vclass_eqb (a b : vclass) : bool :=
   match a, b with
   | VPass, VPass | VNoSep, VNoSep | VEmptyValue, VEmptyValue | VNoX509, VNoX509
-  | VNoMatch, VNoMatch | VPanic, VPanic => true
+  | VNoMatch, VNoMatch | VPanic, VPanic | VPluginFail, VPluginFail => true
   | VBadIdentity e, VBadIdentity e' | VBadLeaf e, VBadLeaf e' => dnerr_eqb e e'
   | _, _ => false
   end.
@@ -198,6 +216,8 @@ Definition wf (i : input) : bool :=
   | IRender d s => true
   | IVerify _ _ ids chain =>
       negb (is_nil chain)                                   (* an envelope carries >= 1 certificate *)
+  | IPlugin ti rev _ _ ids chain =>
+      negb (is_nil chain) && (ti || rev)                    (* a plugin without verification capability is refused earlier *)
   end.
 
 (* ---------- the property oracle (on observations only) ---------- *)
@@ -279,6 +299,11 @@ Definition spec_ok (i : input) (o : obs) : bool :=
   | IVerify late _ _ _, OConstruct _ => negb late           (* rejected before any verification *)
   | IVerify _ log ids chain, OVerify v rej =>
       verify_ok ids chain v && Bool.eqb rej (negb log && negb (is_pass v))
+  | IPlugin _ _ _ _ _ _, OConstruct _ => true
+  | IPlugin ti _ pok log ids chain, OVerify v rej =>
+      (* the native check is replaced only when the plugin owns trusted-identity verification *)
+      (if ti then Bool.eqb (is_pass v) pok else verify_ok ids chain v)
+      && Bool.eqb rej (negb log && negb (is_pass v))
   | _, _ => false
   end.
 
